@@ -37,3 +37,34 @@ Lemma ctx_examples :
   ctx_run_okb g420x12 [Read 23; Skip 1; Read 1; Skip 24; Read 5; Skip 3; Skip 100] = true /\
   ctx_run_okb g420x12 [Skip 22; Skip 2; Skip 1; Read 2; Skip 23; Read 40] = true.
 Proof. vm_compute. repeat split; reflexivity. Qed.
+
+(* max_v_samp_factor = 4 with context rows (Y 1x4, Cb/Cr 1x2, h1v2 fancy upsampling of chroma), 200 rows *)
+Definition g141212 : geom := mkGeom 8 4 200 7 false true 2 100 104 true 4 200.
+
+Lemma g141212_ok : ctx_geom_ok g141212.
+Proof. unfold ctx_geom_ok, g141212, gL. cbn. repeat split; try reflexivity; try discriminate. Qed.
+
+(* hazard 6: read 29 rows (3 rows before the iMCU boundary, next iMCU row already decoded), skip 40:
+   the following rows come from one iMCU row too far *)
+Lemma refuted_context_v4 :
+  let ops := [Read 29; Skip 40; Read 5] in
+  first_hazard_c g141212 (c_init g141212) ops = 6 /\
+  In (69, (50, 51)) (delivered (snd (run_c g141212 (c_init g141212) ops))) /\
+  ideal_c g141212 69 = (34, 35).
+Proof. vm_compute. split; [reflexivity|]. split; [|reflexivity]. do 29 right. left. reflexivity. Qed.
+
+Theorem skip_read_equals_full_context_refuted : ~ skip_read_equals_full_context_full.
+Proof.
+  intros Hfull.
+  destruct (Hfull g141212 [Read 29; Skip 40; Read 5] g141212_ok) as (_ & Hall).
+  { repeat constructor; cbn; discriminate. }
+  destruct refuted_context_v4 as (_ & Hin & Hid).
+  rewrite Forall_forall in Hall. specialize (Hall _ Hin). cbn [fst snd] in Hall. rewrite Hid in Hall. discriminate.
+Qed.
+
+(* hazard-free behaviour of the same geometry one row before the boundary, and with v = 2 *)
+Lemma ctx_examples_v4 :
+  ctx_run_okb g141212 [Read 31; Skip 40; Read 5] = true /\
+  first_hazard_c g141212 (c_init g141212) [Read 31; Skip 40; Read 5] = 0 /\
+  first_hazard_c g420 (c_init g420) [Read 14; Skip 1; Read 1; Skip 16; Read 2; Skip 19; Read 1] = 0.
+Proof. vm_compute. repeat split; reflexivity. Qed.
